@@ -249,6 +249,15 @@ fn run_weighted(acc: &mut Acc, seed: u64) {
                     check!(acc, concat!("WeightedTreeIndex<", $name, ">"), d, WeightedTreeIndex<$W>, |d, r| d.sample(r) as u64, seed);
                 }
             }
+            // empty trees: built empty, default, drained by pop (valid states of this updatable index)
+            if let Ok(e) = WeightedTreeIndex::<$W>::new(Vec::<$W>::new()) {
+                check!(acc, concat!("WeightedTreeIndex<", $name, ">"), e, WeightedTreeIndex<$W>, |d, r| d.try_sample(r).map(|i| i as u64).unwrap_or(u64::MAX), seed);
+            }
+            check!(acc, concat!("WeightedTreeIndex<", $name, ">"), WeightedTreeIndex::<$W>::default(), WeightedTreeIndex<$W>, |d, r| d.try_sample(r).map(|i| i as u64).unwrap_or(u64::MAX), seed);
+            let mut drained = WeightedTreeIndex::<$W>::new(vec![f(3), f(2)]).unwrap();
+            drained.pop();
+            drained.pop();
+            check!(acc, concat!("WeightedTreeIndex<", $name, ">"), drained, WeightedTreeIndex<$W>, |d, r| d.try_sample(r).map(|i| i as u64).unwrap_or(u64::MAX), seed);
             // a tree after updates
             let mut t = WeightedTreeIndex::<$W>::new(vec![f(3), f(0), f(9)]).unwrap();
             let _ = t.push(f(4));
